@@ -1052,7 +1052,42 @@ func (g *gen) faultStmt(b *block, sc *scope) {
 // range expression of an array is evaluated once (the loop sees a copy).
 func (g *gen) orderStmt(b *block, sc *scope) {
 	r := g.r
-	switch r.Intn(3) {
+	switch r.Intn(4) {
+	case 3:
+		// an append that exactly fills, falls short of, or exceeds the
+		// capacity: the result shares the backing array in the first two cases
+		g.feat("append-alias")
+		t := pick(r, BasicTypes)
+		if t.Kind == KComplex {
+			t = TInt64
+		}
+		n, k := r.Intn(3), 1+r.Intn(3)
+		c := n + k
+		s0, full, res := g.newID("s"), g.newID("full"), g.newID("r")
+		b.add("%s := make([]%s, %d, %d)", s0, t.Name, n, c)
+		b.add("%s := %s[:%d]", full, s0, c)
+		add := k + r.Intn(3) - 1 // k-1, k or k+1 elements
+		if add < 1 {
+			add = 1
+		}
+		var vals []string
+		for i := 0; i < add; i++ {
+			vals = append(vals, g.lit(t))
+		}
+		if r.Intn(2) == 0 {
+			b.add("%s := append(%s, %s)", res, s0, strings.Join(vals, ", "))
+		} else {
+			b.add("%s := append(%s, []%s{%s}...)", res, s0, t.Name, strings.Join(vals, ", "))
+		}
+		b.add("%s[0] = %s", res, g.lit(t))
+		tag := g.newID("t")
+		if add <= k {
+			b.add("println(%q, len(%s), cap(%s))", tag, res, res)
+		} else {
+			b.add("println(%q, len(%s))", tag, res)
+		}
+		b.add("for _, e := range %s {\n\tprintln(%q, e)\n}", full, tag)
+		b.add("for _, e := range %s {\n\tprintln(%q, e)\n}", res, tag)
 	case 0:
 		g.feat("tuple-assign-index-operand")
 		i, s := g.newID("i"), g.newID("s")
